@@ -51,6 +51,8 @@ func main() {
 		os.Exit(cmdCheck(os.Args[2:]))
 	case "vc":
 		os.Exit(cmdVC(os.Args[2:]))
+	case "audit":
+		os.Exit(cmdAudit(os.Args[2:]))
 	case "sweepgen":
 		os.Exit(cmdSweepGen(os.Args[2:]))
 	default:
@@ -216,6 +218,20 @@ func (r *CheckRun) Run() (code int) {
 	if err != nil {
 		fmt.Fprintln(os.Stderr, "ENGINE-ERROR:", err)
 		return 2
+	}
+	// modular soundness guard: every contract that callers rely on must be verified by some claimed check
+	if ps := claimedProps(r.Verif); len(ps) > 0 && r.Only == "" {
+		problems, _, err := auditContracts(P, r.Verif, ps)
+		if err != nil {
+			fmt.Fprintln(os.Stderr, "ENGINE-ERROR:", err)
+			return 2
+		}
+		for _, p := range problems {
+			fmt.Fprintln(os.Stderr, "ENGINE-ERROR: unverified contract:", p)
+		}
+		if len(problems) > 0 {
+			return 2
+		}
 	}
 	P.computeModsets()
 	quickMs, slowMs := 4000, 30000
@@ -786,5 +802,111 @@ func cmdSweepGen(args []string) int {
 		}()
 	}
 	fmt.Printf("%d functions, %d obligations\n", len(keys), nobl)
+	return 0
+}
+
+// auditContracts lists the contracts with a body that no claimed property selects for verification, and the
+// postconditions labelled only for unclaimed properties: both would be relied upon at call sites without ever
+// being checked.
+func auditContracts(P *Prog, verif string, props []string) ([]string, int, error) {
+	sel := map[string]bool{}
+	claimed := map[string]bool{}
+	for _, p := range props {
+		p = strings.TrimSpace(p)
+		if p == "" {
+			continue
+		}
+		claimed[p] = true
+		r := &CheckRun{P: P, Prop: p, Verif: verif}
+		keys, err := r.propFuncs()
+		if err != nil {
+			return nil, 0, err
+		}
+		for _, k := range keys {
+			sel[k] = true
+		}
+	}
+	var names []string
+	for k := range P.Spec.Contracts {
+		names = append(names, k)
+	}
+	sort.Strings(names)
+	var out []string
+	n := 0
+	for _, k := range names {
+		c := P.Spec.Contracts[k]
+		if c.Assumed {
+			continue
+		}
+		fn, ok := P.Funcs[c.Target]
+		if !ok || len(fn.Blocks) == 0 {
+			continue
+		}
+		n++
+		if !sel[k] {
+			out = append(out, fmt.Sprintf("contract of %s (%s:%d) is verified by no claimed property", k, filepathBase(c.File), c.Line))
+		}
+		for _, e := range c.Ensures {
+			if e.Trusted || len(e.Labels) == 0 {
+				continue
+			}
+			ok, propLabel := false, false
+			for _, l := range e.Labels {
+				if len(l) >= 3 && l[0] == 'C' && l[1] >= '0' && l[1] <= '9' {
+					propLabel = true
+					if claimed[l[:3]] {
+						ok = true
+					}
+				}
+			}
+			if propLabel && !ok {
+				out = append(out, fmt.Sprintf("postcondition %v of %s (%s:%d) is labelled only for properties that are not claimed", e.Labels, k, filepathBase(e.File), e.Line))
+			}
+		}
+	}
+	return out, n, nil
+}
+
+func claimedProps(verif string) []string {
+	var m struct {
+		Checks []struct {
+			PropertyID string `json:"property_id"`
+		} `json:"checks"`
+	}
+	loadJSON(filepath.Join(verif, "MANIFEST.json"), &m)
+	var out []string
+	for _, c := range m.Checks {
+		out = append(out, c.PropertyID)
+	}
+	return out
+}
+
+func cmdAudit(args []string) int {
+	fs := flag.NewFlagSet("audit", flag.ExitOnError)
+	repo := fs.String("repo", "/repo", "")
+	verif := fs.String("verif", "/verif", "")
+	props := fs.String("props", "", "comma separated claimed properties (default: those in MANIFEST.json)")
+	fs.Parse(args)
+	P, err := loadAll(*repo, *verif)
+	if err != nil {
+		fmt.Fprintln(os.Stderr, err)
+		return 2
+	}
+	ps := strings.Split(*props, ",")
+	if *props == "" {
+		ps = claimedProps(*verif)
+	}
+	problems, n, err := auditContracts(P, *verif, ps)
+	if err != nil {
+		fmt.Fprintln(os.Stderr, err)
+		return 2
+	}
+	for _, p := range problems {
+		fmt.Println("UNVERIFIED", p)
+	}
+	fmt.Printf("audit: %d contracts with a body, %d problems\n", n, len(problems))
+	if len(problems) > 0 {
+		return 1
+	}
 	return 0
 }
